@@ -17,7 +17,7 @@ What `run()` / `run_timeout()` of a compiled Ascent program does, at the level o
 * `run_timeout` may return after any iteration *without* storing the local indices back.
 
 Index contents are bags of row numbers (a `Vec`-backed index holds one entry per insertion;
-`HashSet`-backed lattice indices of the serial mode are read through `eraseDups`).  A lookup
+the `HashSet`-backed lattice indices are read through `eraseDups`).  A lookup
 is a filter over the version's entries — the hash maps themselves are the subject of C19.
 Enumeration order follows list order; every theorem is about sets (or, for aggregation, bags
 up to permutation), so it covers every hash order.  Core Lean only; executable.
@@ -57,7 +57,8 @@ structure SccSt where
 deriving Repr
 
 structure Config where
-  /-- `ascent_par!`: all non-key lattice indices are `Vec`-backed too -/
+  /-- `ascent_par!` (affects the bookkeeping of the parallel lattice head update; since fix 058163a the non-key
+  lattice indices are set-valued in both modes: `LatticeIndexType` / `CLatIndex`) -/
   parallel : Bool := false
 deriving Repr
 
@@ -71,8 +72,9 @@ def setNth (l : List α) (i : Nat) (x : α) : List α :=
 
 def declOf (p : Program E B G P A) (r : RelId) : RelDecl := p.rels.getD r ⟨0, false⟩
 
-/-- index entries of a lattice are kept in `HashSet`s in serial mode -/
-def setLike (cfg : Config) (d : RelDecl) : Bool := d.lat && !cfg.parallel
+/-- index entries of a lattice are kept in `HashSet`s (serial `LatticeIndexType`; parallel `CLatIndex` since fix 058163a,
+before it `Vec`-backed `CRelIndex` / `CRelNoIndex`: finding F5) -/
+def setLike (_cfg : Config) (d : RelDecl) : Bool := d.lat
 
 def readBag (cfg : Config) (d : RelDecl) (bag : List Nat) : List Nat :=
   if setLike cfg d then bag.eraseDups else bag
